@@ -54,7 +54,14 @@ def cases(tier, seed):
         for g in gl:
             if g != [1, 1]:
                 out.append({'kind': 'driver', 'cfg': cfg, 'grid': g, 'cost': 30 * g[0] * g[1] * cfg['steps']})
-    out.append({'kind': 'sched', 'cfg': CONFIGS[1], 'grid': [2, 2], 'bound': 1 if tier == 'quick' else 2, 'stages': 'qn', 'cost': 2000, 'timeout': 1400})
+    # schedules: partitioned over several cases by the position of the first deviation
+    if tier == 'quick':
+        plans = [([2, 2], 1, 4)]
+    else:
+        plans = [([2, 2], 1, 4), ([2, 3], 1, 8), ([1, 2], 2, 8), ([2, 1], 2, 8)]
+    for grid, bound, nparts in plans:
+        for part in range(nparts):
+            out.append({'kind': 'sched', 'cfg': CONFIGS[1], 'grid': grid, 'bound': bound, 'stages': 'qn', 'part': part, 'nparts': nparts, 'cost': 2000, 'timeout': 1400})
     return out
 
 
@@ -377,8 +384,10 @@ def run_case(case):
         if obs[0] or not obs[1]:
             V('schedule-dependent-result', 'schedule %r gives %r (%s)' % (choices, obs, tag))
         return None
-    st = explore.explore(run, bound=case['bound'], on_exec=on_exec)
-    if len(traces) != 1:
+    roots = explore.roots_for_part(run, case['part'], case['nparts'])
+    traces.clear()
+    st = explore.explore(run, bound=case['bound'], on_exec=on_exec, roots=roots)
+    if len(traces) > 1:
         V('schedule-dependent-trace', '%d distinct per-rank collective traces over %d schedules (%s)' % (len(traces), st['executions'], tag))
     return {'evals': st['executions'], 'nontrivial': st['executions'], 'violations': list(seen.values()),
             'stats': {'schedules': st['executions'], 'max_sched_points': st['points_max'], 'distinct_outcomes': len(outcomes)},
